@@ -32,6 +32,9 @@ var anchorFiles = map[string]bool{
 	"reflection/resolver.go": true, "reflection.go": true,
 	"webbridge/http.go": true, "webbridge/websocket.go": true, "webbridge/grpcweb.go": true,
 	"webbridge/webbridge.go": true, "internal/syncset/syncset.go": true,
+	// shared by all requests of a bridge (one transcoder / marshaler per WebBridge): added after seeded change C18-m7
+	"transcoding/http.go": true, "transcoding/json.go": true, "transcoding/transcoding.go": true,
+	"grpcadapter/forwarder.go": true, "grpcadapter/metadata.go": true, "bridge.go": true, "proxy.go": true, "forwarder.go": true,
 }
 
 type Access struct {
@@ -586,7 +589,7 @@ func main() {
 	cfg := &packages.Config{Mode: packages.NeedName | packages.NeedFiles | packages.NeedSyntax | packages.NeedTypes |
 		packages.NeedTypesInfo | packages.NeedImports | packages.NeedDeps, Dir: repo,
 		Env: append(os.Environ(), "GOFLAGS=-mod=mod", "GOPROXY=off", "GOSUMDB=off", "GOTOOLCHAIN=local")}
-	pkgs, err := packages.Load(cfg, "./routing", "./grpcadapter", "./reflection", "./webbridge", ".", "./internal/syncset")
+	pkgs, err := packages.Load(cfg, "./routing", "./grpcadapter", "./reflection", "./webbridge", ".", "./internal/syncset", "./transcoding")
 	loadErrs := 0
 	if err != nil {
 		fmt.Fprintln(os.Stderr, "lockset: load:", err)
